@@ -30,8 +30,18 @@
 //	          closed) or by the driver after App.Close has returned (RelBy = 0).  App.Run must return afterwards.
 //	"self"    an ApplicationRunner calls App.Close() itself from inside its Run(); the driver never calls Close.
 //
-// The oracle is the same in every mode: every closer called exactly once, Close returns after all of them
-// returned, nothing hangs.
+//	"overlap" App.Run has returned; the driver issues Closes (2-3) calls of App.Close that OVERLAP: call k+1 is invoked
+//	          while call k is certainly still running - at least one closer is of kind G (its Close() blocks until the
+//	          driver opens the gate of that call), and the driver invokes call k+1 only when every closer has been entered k
+//	          times (or call k has returned, which on such a case is already the violation).  When all calls have been
+//	          invoked the driver opens the gates call by call in the order RelOrder (any permutation: a later call may
+//	          return before an earlier one) and waits for that call to return.  Attribution: the j-th entry into a closer's
+//	          Close() belongs to call j (every event carries that number, C).  Kinds per entry j: F returns at once; A blocks
+//	          until every closer has been entered j times; W blocks until it sees that call j has already returned (the
+//	          violation) or a short deadline; G blocks until the gate of call j is opened.
+//
+// The oracle is the same in every mode: every closer called exactly once (by every call of Close), Close returns after
+// all of its invocations returned, nothing hangs.
 package main
 
 import (
@@ -63,12 +73,16 @@ type Case struct {
 	Mode       string `json:"mode"`
 	RunnerSlot int    `json:"runner_slot"`
 	RelBy      int    `json:"rel_by"`
+	// Mode "overlap": number of overlapping Close calls; the order in which their gates are opened (a permutation of 1..Closes)
+	Closes   int   `json:"closes"`
+	RelOrder []int `json:"rel_order"`
 }
 
 type Event struct {
-	K   string `json:"k"` // call | ret | close
+	K   string `json:"k"` // call | ret | close | inv (mode "overlap": the driver invokes a call of App.Close)
 	I   int    `json:"i"`
 	Err bool   `json:"err"`
+	C   int    `json:"c,omitempty"` // mode "overlap": the call of App.Close the event is attributed to (1-based)
 }
 
 type Out struct {
@@ -105,7 +119,18 @@ type recorder struct {
 	registered int32 // len(App.CloserComponents) as the runner saw it (mode "self")
 	runnerLost atomic.Bool
 	closePanic string
+
+	// mode "overlap" (index 0 unused)
+	K        int
+	ord      []int32         // per closer id: how often its Close() has been entered
+	reached  []chan struct{} // reached[k] is closed when the closers have been entered k*n times in total
+	closedK  []chan struct{} // closedK[k] is closed when call k of App.Close has returned
+	gate     []chan struct{} // gate[k] is closed by the driver: the G closers of call k may return
+	gateOnce []sync.Once
+	gateLost atomic.Bool
 }
+
+func (r *recorder) openGate(k int) { r.gateOnce[k].Do(func() { close(r.gate[k]) }) }
 
 func (r *recorder) releaseRunner() { r.relOnce.Do(func() { close(r.release) }) }
 
@@ -146,6 +171,9 @@ func (r *recorder) add(e Event) {
 		r.calls++
 		if r.calls == r.n {
 			close(r.allCalled)
+		}
+		if r.mode == "overlap" && r.n > 0 && r.calls%r.n == 0 && r.calls/r.n <= r.K {
+			close(r.reached[r.calls/r.n])
 		}
 	}
 	r.mu.Unlock()
@@ -207,7 +235,45 @@ type outer struct {
 func (o *outer) Naming() string { return fmt.Sprintf("closer%d", o.self.id) }
 func (o *outer) Close() error   { return o.self.run() }
 
+// runOverlap: one entry into the closer's Close() in mode "overlap"; j = the how-manieth entry it is = the call it belongs to
+func (c *core) runOverlap() error {
+	r := c.rec
+	j := int(atomic.AddInt32(&r.ord[c.id], 1))
+	r.add(Event{K: "call", I: c.id, C: j})
+	if j <= r.K { // a surplus entry (more entries than calls of Close) returns at once
+		switch c.kind {
+		case "A":
+			select {
+			case <-r.reached[j]:
+			case <-r.closedK[j]:
+			case <-time.After(stallTimeout):
+				r.stalled.Store(true)
+			}
+		case "W":
+			select {
+			case <-r.closedK[j]:
+			case <-time.After(c.wdl):
+			}
+		case "G":
+			select {
+			case <-r.gate[j]:
+			case <-time.After(2*hangTimeout + stallTimeout):
+				r.gateLost.Store(true)
+			}
+		}
+	}
+	r.add(Event{K: "ret", I: c.id, Err: c.fail, C: j})
+	atomic.AddInt32(&r.rets, 1)
+	if c.fail {
+		return errors.New("closer failed")
+	}
+	return nil
+}
+
 func (c *core) run() error {
+	if c.rec.mode == "overlap" {
+		return c.runOverlap()
+	}
 	c.rec.add(Event{K: "call", I: c.id})
 	if c.rec.mode == "during" && c.rec.relBy == c.id {
 		c.rec.releaseRunner()
@@ -307,6 +373,17 @@ func build(c Case, rec *recorder) (comps []any, bad string) {
 	}
 	switch c.Mode {
 	case "":
+	case "overlap":
+		if c.Closes < 1 || c.Closes > 8 || len(c.RelOrder) != c.Closes {
+			return nil, "overlap: closes / rel_order"
+		}
+		seen := map[int]bool{}
+		for _, k := range c.RelOrder {
+			if k < 1 || k > c.Closes || seen[k] {
+				return nil, "overlap: rel_order is not a permutation"
+			}
+			seen[k] = true
+		}
 	case "during", "self":
 		if c.RunnerSlot >= 0 {
 			if c.RunnerSlot >= c.N || shape(c.RunnerSlot) != "P" {
@@ -334,6 +411,19 @@ func runCase(c Case) (out Out) {
 		mode: c.Mode, relBy: c.RelBy, release: make(chan struct{}), started: make(chan struct{})}
 	if c.N == 0 {
 		close(rec.allCalled)
+	}
+	if c.Mode == "overlap" {
+		rec.K = c.Closes
+		rec.ord = make([]int32, c.N+1)
+		rec.gateOnce = make([]sync.Once, c.Closes+1)
+		for k := 0; k <= c.Closes; k++ {
+			rec.reached = append(rec.reached, make(chan struct{}))
+			rec.closedK = append(rec.closedK, make(chan struct{}))
+			rec.gate = append(rec.gate, make(chan struct{}))
+			if c.N == 0 {
+				close(rec.reached[k])
+			}
+		}
 	}
 	comps, bad := build(c, rec)
 	if bad != "" {
@@ -363,7 +453,7 @@ func runCase(c Case) (out Out) {
 	}
 	wdl := time.Duration(c.WdlMs) * time.Millisecond
 	switch c.Mode {
-	case "":
+	case "", "overlap":
 		if runEnded(<-runDone) {
 			return
 		}
@@ -403,7 +493,46 @@ func runCase(c Case) (out Out) {
 		}
 		out.Registered = int(atomic.LoadInt32(&rec.registered))
 	}
-	if c.Mode != "self" {
+	if c.Mode == "overlap" {
+		dones := make([]chan string, c.Closes+1)
+		for k := 1; k <= c.Closes && out.Outcome == "ok"; k++ {
+			dones[k] = make(chan string, 1)
+			rec.add(Event{K: "inv", C: k})
+			go func(k int) {
+				p := hx.Guard(func() { a.Close() })
+				rec.add(Event{K: "close", C: k})
+				close(rec.closedK[k])
+				dones[k] <- p
+			}(k)
+			// the next call is invoked only when every closer has been entered k times (while a G closer of this call is
+			// still blocked) - or when this call has already returned
+			select {
+			case <-rec.reached[k]:
+			case <-rec.closedK[k]:
+			case <-time.After(hangTimeout):
+				out.Outcome, out.Detail = "hang", fmt.Sprintf("call %d of App.Close: the closers were not all entered", k)
+			}
+		}
+		for _, k := range c.RelOrder {
+			rec.openGate(k)
+			if dones[k] == nil {
+				continue
+			}
+			select {
+			case p := <-dones[k]:
+				if p != "" && out.Outcome == "ok" {
+					out.Outcome, out.Detail = "panic", "Close: "+p
+				}
+			case <-time.After(hangTimeout + wdl):
+				if out.Outcome == "ok" {
+					out.Outcome, out.Detail = "hang", fmt.Sprintf("call %d of App.Close did not return", k)
+				}
+			}
+		}
+		if rec.gateLost.Load() && out.Outcome == "ok" {
+			out.Outcome, out.Detail = "hang", "a gate was never opened"
+		}
+	} else if c.Mode != "self" {
 		done := make(chan string, 1)
 		go func() {
 			p := hx.Guard(func() { a.Close() })
